@@ -181,6 +181,14 @@ func (s *Storage) SaveStore(store *metapb.Store) error {
 
 // DeleteStore deletes one store from storage.
 func (s *Storage) DeleteStore(store *metapb.Store) error {
+	// The weights belong to the store's record (LoadStores reads them back): they must not outlive it,
+	// or a store that registers with the same id again is loaded with weights that were never set for it.
+	if err := s.Remove(s.storeLeaderWeightPath(store.GetId())); err != nil {
+		return err
+	}
+	if err := s.Remove(s.storeRegionWeightPath(store.GetId())); err != nil {
+		return err
+	}
 	return s.Remove(s.storePath(store.GetId()))
 }
 
